@@ -36,6 +36,8 @@ class Graph:
     def tours(self, init_key, max_len=40, usable=lambda a: True):
         """Returns list of paths; a path is a list of edge indices. Edges for which usable(act) is False are
         neither covered nor used."""
+        if init_key not in self.out:
+            raise ValueError("tour: the initial state is not a node of the exported graph (%d edges): %s" % (len(self.edges), init_key[:200]))
         parent = {init_key: None}
         dq = deque([init_key])
         order = []
